@@ -2,7 +2,7 @@
    Only the property theorems, each closed by [exact] and followed by Print Assumptions. *)
 From Coq Require Import List ZArith.
 From MirV Require Import C08.CLayout C08.SysVLayout C08.CClassify C08.SysVClassify C08.StepProofs
-  C08.LayoutProofs C08.ClassifyProofs C08.DisjointProofs C08.TotalProofs C08.SpanClassify C08.RetProofs.
+  C08.LayoutProofs C08.ClassifyProofs C08.DisjointProofs C08.TotalProofs C08.SpanClassify C08.RetProofs C08.SigProofs.
 Import ListNotations.
 Local Open Scope Z_scope.
 
@@ -249,3 +249,49 @@ Example ret_pieces_boundary :
   ret_pieces c08_char3 = Some [(0, MI32)] /\ ret_pieces c08_char5 = Some [(0, MI64)] /\
   ret_pieces c08_float3 = Some [(0, MD); (8, MD)].
 Proof. exact ret_pieces_examples. Qed.
+
+(* ---- round 3 (seeded z2): the register bookkeeping of SCALAR parameters, from their C types.
+   c2mir: get_mir_type, then the scalar branch of target_add_arg_proto / target_add_call_arg_op
+   ([c2m_scalar_regs]: F, D bump n_fregs; LD bumps nothing; every other type bumps n_iregs).
+   psABI: the class of the scalar ([sysv_scalar_class], by SysVClassify.sv_merge_into). *)
+
+(* every scalar type (15 basic kinds, pointers, every enum): c2mir bumps exactly the counter of the
+   register file the psABI class takes a register from; X87 (long double) bumps none *)
+Theorem scalar_regs_eq_sysv : forall t ni nf, scalar_ty t = true ->
+  c2m_scalar_regs (get_mir_type t) (ni, nf) =
+  match sysv_scalar_class t with
+  | INTEGER => (ni + 1, nf) | SSE => (ni, nf + 1) | _ => (ni, nf)
+  end.
+Proof. exact scalar_regs_eq_sysv_lemma. Qed.
+Print Assumptions scalar_regs_eq_sysv.
+
+Theorem ldouble_no_register : forall st,
+  sysv_scalar_class (TBasic KLDouble) = X87 /\ c2m_scalar_regs (get_mir_type (TBasic KLDouble)) st = st.
+Proof. exact ldouble_no_register_lemma. Qed.
+Print Assumptions ldouble_no_register.
+
+(* after EVERY prefix of every parameter list (scalars of any type, structs/unions by value, any
+   result): registers the psABI has assigned = min (c2mir's n_iregs, 6) and min (n_fregs, 8) *)
+Theorem counters_eq_sysv : forall r ps n,
+  result_ok r -> Forall cparam_ok ps ->
+  let c := c2m_counters r (firstn n ps) in
+  let s := sv_counters r (firstn n ps) in
+  0 <= fst c /\ 0 <= snd c /\ fst s = Z.min (fst c) 6 /\ snd s = Z.min (snd c) 8.
+Proof. exact counters_eq_sysv_lemma. Qed.
+Print Assumptions counters_eq_sysv.
+
+(* hence the MIR block type of every aggregate parameter, wherever it stands among the scalars *)
+Theorem csignature_eq_sysv : forall r ps,
+  result_ok r -> Forall cparam_ok ps ->
+  c2m_csignature r ps = map (option_map blk_of_places) (sv_csignature r ps).
+Proof. exact csignature_eq_sysv_lemma. Qed.
+Print Assumptions csignature_eq_sysv.
+
+(* non-vacuity on the boundary: f (long double, double x 7, struct {double}, struct {double}) *)
+Example sig_ld_boundary :
+  Forall cparam_ok sig_ld_params /\
+  c2m_csignature RScalar sig_ld_params = repeat None 8 ++ [Some 2; Some 0] /\
+  c2m_counters RScalar (firstn 8 sig_ld_params) = (0, 7) /\
+  c2m_counters RScalar sig_ld_params = (0, 8) /\
+  c2m_csignature RScalar (CScalar (TBasic KLDouble) :: sig_ld_params) = repeat None 9 ++ [Some 2; Some 0].
+Proof. exact sig_ld_ok. Qed.
